@@ -59,7 +59,7 @@ PROPS = {
                                                                          'DW.relevantIdx_unskippable', 'DW.C06_unskippable_clone',
                                                                          'DW.C06_unskippable_default', 'DW.C06_no_demand_eq', 'DW.C06_skipped_never_mentioned', 'DW.C09_skip_blind', 'DW.C11_skip_blind'],
                 enums=['skip', 'debug', 'zeroize', 'fieldopts', 'lacking'], configs_quick=['default', 'safe', 'zod'], design='7/C06'),
-    'C07': dict(traits=['PartialEq', 'PartialOrd'], theorems=['DW.C07_marked_eq', 'DW.C07_marked_pcmp', 'DW.C07_eq_eval', 'DW.C07_pcmp_eval',
+    'C07': dict(traits=['PartialEq', 'PartialOrd'], theorems=['DW.C07_marked_eq', 'DW.C07_marked_pcmp', 'DW.C07_self_compare', 'DW.C07_eq_eval', 'DW.C07_pcmp_eval',
                                                                'DW.C07_unaffected_eq', 'DW.C07_unaffected_pcmp', 'DW.C07_operators', 'DW.operators_of_partial_cmp'],
                 enums=['incomparable'], configs_quick=['default', 'safe', 'nightly', 'zod'], design='7/C07'),
     'C08': dict(traits=['Hash'], theorems=['DW.C08_validated', 'DW.C08_transcript', 'DW.C08_iff'], enums=['skip', 'fieldopts', 'foreign', 'lacking'], configs_quick=['default', 'safe', 'zod'], design='7/C08'),
